@@ -106,6 +106,11 @@ def build(case) -> Built:
         el2.external_torque = external_torque_2
     apply_initial_conditions(b)
     b.powertrain = Powertrain(motor=b.motor)
+    for i, attr, unit in case.get('reexpress') or []:
+        # the user re-expresses a parameter of an assembled element in place (same physical quantity)
+        q = getattr(b.elements[i], attr, None)
+        if q is not None and hasattr(q, 'to'):
+            q.to(unit, inplace=True)
     if case.get('deepcopy'):
         # the user copies the assembled design (copy.deepcopy, as the library's own tests do) and simulates the copy;
         # the original stays alive and untouched
